@@ -137,6 +137,12 @@ func c07History(ap corpusApp, cfgi int, inputs []string, c *mc.Ctx) (sig, msg st
 		s.Flush = true
 		twins = append(twins, c07Twin{"persisted-mem-with-flush", s, cl})
 	}
+	{
+		// and one engine WITH a persister kept for the whole session (the engine.Loop arrangement): like the
+		// long-lived engine it is not continued after the session ended
+		s, cl := openBackend(ap.Build(), lsOpts{Mode: "long-lived-persister", Backend: "mem", Cfg: cfg})
+		twins = append(twins, c07Twin{"long-lived-with-persister", s, cl})
+	}
 	defer func() {
 		for _, t := range twins {
 			t.cl()
@@ -183,6 +189,12 @@ func c07History(ap corpusApp, cfgi int, inputs []string, c *mc.Ctx) (sig, msg st
 					sg += "-after-error"
 				}
 				return sg, fmt.Sprintf("%s: %s gives %s; %s gives %s", where, t.name, short(r.Client()), baseName, short(base.Client())), reqs
+			}
+			if t.s.Mode == app.KeptEngine {
+				if !r.Cont && r.ExecErr == "" {
+					twins[ti].s = nil // the session ended; Exec on the same engine is undefined from here
+				}
+				continue
 			}
 			if r.FinishErr == "-" {
 				// this client did not save the session after an error: the premise "saves it back" no
